@@ -1,30 +1,46 @@
 """C01 check definition: which obligations run in which tier."""
 from xhair.runner import Obl
+from checks.common import per_part
 
 M = "xhair.obl.c01"
+NTYPES = 15      # miniA: 13 types + 'bogus' + ''
 
 
 def x_obligations(tier):
     o = []
-    if tier == "quick":
-        o.append(Obl("C01-oracle[len<=5]", M, "oracle", env={"VF_N": "5"}, timeout=150, family="C01-oracle", bound="every str s, len(s)<=5, no '?' ':'"))
-        o.append(Obl("C01-colons[len<=4]", M, "colons", env={"VF_N": "4"}, timeout=150, family="C01-colons", bound="every str s, len(s)<=4, no '?'"))
-        o.append(Obl("C01-total[len<=3]", M, "total", env={"VF_N": "3"}, timeout=150, family="C01-total", bound="every str s, len(s)<=3 (with '?' and ':')"))
-        for ti in range(15):
-            o.append(Obl(f"C01-uri[t={ti},len<=4]", M, "uri", env={"VF_N": "4", "VF_TI": str(ti)}, timeout=150, family="C01-uri", bound="forced type #%d, every str s, len(s)<=4" % ti))
-        o.append(Obl("C01-reach[len<=6]", M, "reach_typed", env={"VF_N": "6"}, timeout=150, expect="refute", family="C01-twin"))
+    q = tier == "quick"
+    T = 170 if q else 600
+    o += per_part("C01", "C01-oracle", M, "oracle", tier, timeout=T)
+    o += per_part("C01", "C01-colons", M, "colons", tier, timeout=T, only=["", "h/a/", "h/s/q1/v1/"] if q else None, shrink=1)
+    for pre, n in ([("", 3), ("h/a/x", 2)] if q else [("", 4), ("h/a/x", 3), ("h/", 3), ("h/s/q1/v1/", 2), ("?", 3), ("h/a/x?", 3)]):
+        o.append(Obl(f"C01-total[{pre!r}+{n}]", M, "total", env={"VF_N": str(n), "VF_PRE": pre}, timeout=T, family="C01-total", bound=f"s = {pre!r}+t, EVERY str t with len<={n} (with '?' and ':')"))
+    # forced types: every type name against a skeleton of its own depth and against shorter / longer ones
+    skel = [("", 4), ("h/a/", 2), ("h/a/x/v1/", 1), ("h/s/q1/v1/", 2), ("h/s/q1/v1/o/", 1)] if q else [("", 5), ("h/", 3), ("h/a/", 3), ("h/a/x/", 3), ("h/a/x/v1/", 2), ("h/s/q1/", 3), ("h/s/q1/v1/", 3), ("h/s/q1/v1/o/", 2)]
+    for ti in range(NTYPES):
+        for si, (pre, n) in enumerate(skel):
+            if q and (ti + si) % 3:
+                continue
+            o.append(Obl(f"C01-uri[t={ti},{pre!r}+{n}]", M, "uri", env={"VF_N": str(n), "VF_TI": str(ti), "VF_PRE": pre}, timeout=T, family="C01-uri",
+                         bound=f"forced type #{ti} (13 configured types, 'bogus', ''), s = {pre!r}+t, every t with len<={n}"))
+    o.append(Obl("C01-reach[len<=6]", M, "reach_typed", env={"VF_N": "6"}, timeout=150, expect="refute", family="C01-twin"))
     return o
 
 
 def z_obligations(tier):
     z = [dict(name="C01-lang[shipped]", module="tplz3.c01z", func="lang", args={"conf": "shipped"}, timeout=300, family="C01-lang"),
          dict(name="C01-order[shipped]", module="tplz3.c01z", func="order", args={"conf": "shipped"}, timeout=300, family="C01-order")]
+    if tier == "thorough":
+        for conf in ("miniA", "miniB"):
+            z.append(dict(name=f"C01-lang[{conf}]", module="tplz3.c01z", func="lang", args={"conf": conf}, timeout=300, family="C01-lang"))
+            z.append(dict(name=f"C01-order[{conf}]", module="tplz3.c01z", func="order", args={"conf": conf}, timeout=300, family="C01-order"))
     return z
 
 
 META = {
     "functions": ["spil.sid.sid.BaseSid.__new__", "spil.sid.core.sid_factory.sid_factory", "spil.sid.core.sid_factory.sid_to_sid",
-                  "spil.sid.core.sid_resolver.sid_to_dict", "resolva.Resolver.resolve_first/resolve_one/resolve_all",
+                  "spil.sid.core.sid_resolver.sid_to_dict/_is_whole_match", "resolva.Resolver.resolve_first/resolve_one/resolve_all",
                   "resolva.template.match_to_dict", "spil.sid.core.query_helper.apply_query (total only)"],
-    "assumptions": [],
+    "assumptions": ["a forced-type uri that is not accepted keeps the part after 'type:' as its string (reading rule)",
+                    "Z models the code's acceptance of a template as its regex with '$' read as end-of-string (sid_to_dict checks that the parsed data formats back to the whole string)"],
+    "outside": ["strings longer than the partitions' bounds; more than 6 segments under miniA"],
 }
